@@ -35,69 +35,65 @@ def _sha(s):
     return hashlib.sha1(s.encode()).hexdigest()
 
 
-def select(tier, seed):
-    """expressions of a run: deterministic core + seeded part of the allow-list.  -> list of (spec, hints)"""
+def pool_chunks():
+    """deterministic partition of the allow-list into translation units (independent of the seed, so binaries are shared by all
+    seeds and both tiers): {"core": [...], "A": [...], "B": [...], "C": [...]}, each a list of chunks of <= TU_SIZE entries"""
     sup = G.load_supported()
-    by_key = {G.spec_key(e["spec"]): e for e in sup["supported"]}
-    rng = random.Random(seed * 7919 + 14)
-    chosen = []
-    used = set()
-
-    def take(e):
-        k = G.spec_key(e["spec"])
-        if k not in used:
-            used.add(k)
-            chosen.append((e["spec"], e.get("hints")))
-    for k in sup.get("core", []):
-        if k in by_key:
-            take(by_key[k])
-    pool = {"A": [], "B": [], "C": []}
+    core_keys = [G.spec_key(s) for s in G.core_specs()]
+    by_base = {}
+    for e in sup["supported"]:
+        by_base.setdefault(G.spec_base_key(e["spec"]), e)
+    core = [by_base[k] for k in core_keys if k in by_base]
+    used = {G.spec_key(e["spec"]) for e in core}
+    rest = {"A": [], "B": [], "C": []}
     for e in sup["supported"]:
         if G.spec_key(e["spec"]) not in used:
-            pool[e["spec"]["t"]].append(e)
-    if tier == "quick":
-        nA, nB, nC = 8, 4, 4
-    else:
-        nA, nB, nC = len(pool["A"]), 90, 90
-    # kind A: spread over functor families (quick: one member per family, the member is seeded)
+            rest[e["spec"]["t"]].append(e)
+    # kind A: every chunk mixes functor families (round-robin over the families)
     fams = {}
-    for e in pool["A"]:
+    for e in sorted(rest["A"], key=lambda e: G.spec_key(e["spec"])):
         fams.setdefault(G.CAT[e["spec"]["f"]].family, []).append(e)
-    fam_names = sorted(fams)
-    rng.shuffle(fam_names)
-    picked = 0
-    rounds = 0
-    while picked < nA and rounds < 1000:
-        progress = False
-        for fam in fam_names:
-            if picked >= nA:
-                break
+    a_sorted = []
+    while any(fams.values()):
+        for fam in sorted(fams):
             if fams[fam]:
-                e = fams[fam].pop(rng.randrange(len(fams[fam])))
-                take(e)
-                picked += 1
-                progress = True
-        rounds += 1
-        if not progress:
-            break
-    for kind, n in (("B", nB), ("C", nC)):
-        lst = list(pool[kind])
-        rng.shuffle(lst)
-        for e in lst[:n]:
-            take(e)
-    return chosen
+                a_sorted.append(fams[fam].pop(0))
+    rest["A"] = a_sorted
+    for k in ("B", "C"):
+        # interleave structure classes so that a chunk is not all of one shape
+        rest[k] = sorted(rest[k], key=lambda e: _sha(G.spec_key(e["spec"])))
+
+    def chunks(lst):
+        return [lst[i:i + TU_SIZE] for i in range(0, len(lst), TU_SIZE)]
+    return {"core": chunks(core), "A": chunks(rest["A"]), "B": chunks(rest["B"]), "C": chunks(rest["C"])}
 
 
-def make_tus(chosen):
+def select(tier, seed):
+    """translation units of a run: the deterministic core + a seeded choice of chunks.  -> list of chunks (lists of entries)"""
+    pc = pool_chunks()
+    rng = random.Random(seed * 7919 + 14)
+    out = list(pc["core"])
+    if tier == "quick":
+        want = {"A": 1, "B": 1, "C": 1}
+    else:
+        want = {"A": len(pc["A"]), "B": (3 * len(pc["B"]) + 3) // 4, "C": (3 * len(pc["C"]) + 3) // 4}
+    for k in ("A", "B", "C"):
+        idx = list(range(len(pc[k])))
+        rng.shuffle(idx)
+        for i in sorted(idx[:want[k]]):
+            out.append(pc[k][i])
+    return out
+
+
+def make_tus(chunks):
     """-> list of (Target, [(opname, spec, hints)])"""
     tus = []
-    order = sorted(range(len(chosen)), key=lambda i: (chosen[i][0]["t"], i))
-    for j in range(0, len(order), TU_SIZE):
-        grp = [chosen[i] for i in order[j:j + TU_SIZE]]
-        named = [("e%d" % k, spec) for k, (spec, _) in enumerate(grp)]
+    for grp in chunks:
+        named = [("e%d" % k, e["spec"]) for k, e in enumerate(grp)]
         text = G.gen_tu(named)
-        t = B.Target("c14_" + _sha(text)[:12] + ".cpp", "asan", name="c14_" + _sha(text)[:12], text=text)
-        tus.append((t, [("e%d" % k, spec, hints) for k, (spec, hints) in enumerate(grp)]))
+        nm = "c14_" + _sha(text)[:12]
+        t = B.Target(nm + ".cpp", "asan", name=nm, text=text)
+        tus.append((t, [("e%d" % k, e["spec"], e.get("hints")) for k, e in enumerate(grp)]))
     return tus
 
 
@@ -119,10 +115,12 @@ def describe(spec):
 
 def run(ctx):
     quick = ctx.tier == "quick"
-    chosen = select(ctx.tier, ctx.seed)
-    if not chosen:
+    chunks = select(ctx.tier, ctx.seed)
+    if not chunks:
         raise Inconclusive("empty allow-list vf/c14_supported.json")
-    tus = make_tus(chosen)
+    tus = make_tus(chunks)
+    chosen = [(e["spec"], e.get("hints")) for grp in chunks for e in grp]
+    finfo = G.functor_info()
     res = B.build([t for t, _ in tus])
     ncases = 3 if quick else 5
     rng = ctx.rng
@@ -145,8 +143,8 @@ def run(ctx):
         meta = {}
         cid = 0
         for opname, spec, hints in members:
-            for _ in range(ncases):
-                case = G.sample_case(spec, rng, hints)
+            for ci in range(ncases):
+                case = G.sample_case(spec, rng, hints, force=spec.get("force_shapes") if ci == 0 else None)
                 if case is None:
                     skipped["no_args"] += 1
                     continue
@@ -174,11 +172,18 @@ def run(ctx):
             det = dict(expression=describe(spec), spec=spec, leaf_shapes=case["leaf_shapes"], attrs=case["attr_vals"], line=line[:2000])
             if cid_ in crashed:
                 ctx.ev()
-                check_crash(ctx, m, crashed[cid_], det)
+                check_crash(ctx, m, crashed[cid_].kind(), crashed[cid_].stderr, det, finfo)
                 continue
             if cid_ not in results:
                 continue
             toks, hooks = split_hooks(results[cid_])
+            if "EXC" in toks:
+                # a C++ exception escaped the library call (caught by the runner)
+                ctx.ev()
+                k = toks.index("EXC")
+                what = toks[k + 1] if k + 1 < len(toks) else "?"
+                check_crash(ctx, m, "exception:" + what.split(":")[0][:40], " ".join(toks[k:k + 2]), det, finfo)
+                continue
             for (s, v, f0, f1) in hacc.add(hooks):
                 ctx.violation("%s:hook:%s" % (spec["t"], SITE_NAMES.get(s, s)), "bounds hook %s fired (index %d bound %d) in %s" % (SITE_NAMES.get(s, s), f0, f1, describe(spec)), det)
             ctx.ev()
@@ -189,11 +194,11 @@ def run(ctx):
                     nv = check_ab(ctx, spec, case, toks, det, skipped, families_seen, classes_seen)
                     n_variants += nv
                 elif m["part"] == "main":
-                    a, b = check_c_main(ctx, spec, case, toks, det, skipped, classes_seen)
+                    a, b = check_c_main(ctx, spec, case, toks, det, skipped, classes_seen, finfo)
                     n_operands += a
                     n_graphs += b
                 else:
-                    n_applies += check_c_apply(ctx, spec, case, toks, det, skipped, classes_seen)
+                    n_applies += check_c_apply(ctx, spec, case, toks, det, skipped, classes_seen, finfo)
                 stats[spec["t"]] += 1
             except (ValueError, IndexError, KeyError) as e:
                 ctx.violation("%s:malformed_record" % spec["t"], "unparsable record for %s: %s" % (describe(spec), e), det)
@@ -223,10 +228,9 @@ def run(ctx):
 
 
 # ---------------------------------------------------------------------------------------------------------
-def check_crash(ctx, m, crash, det):
+def check_crash(ctx, m, kind, stderr, det, finfo):
     spec = m["spec"]
-    kind = crash.kind()
-    det = dict(det, stderr=crash.stderr[-2500:], crash=kind)
+    det = dict(det, stderr=stderr[-2500:], crash=kind)
     if spec["t"] == "A":
         ctx.violation("curry:%s:crash:%s" % (G.CAT[spec["f"]].family, kind), "%s died: %s" % (describe(spec), kind), det)
     elif spec["t"] == "B":
@@ -234,13 +238,14 @@ def check_crash(ctx, m, crash, det):
     else:
         tree = G.number_instances(spec["tree"])
         cl = G.classify_tree(tree)
+        ec = E.extract_class(tree, finfo)
         if m["part"] == "apply":
             if cl["bin_over_view"] and kind == "asan:stack-use-after-scope":
                 ctx.violation("extract:binary_ufunc_over_view:stack_use_after_scope",
                               "get_function_composition of %s reads a destroyed temporary (ASan stack-use-after-scope)" % describe(spec), det)
-            elif cl["pos_ge1"]:
-                ctx.violation("extract:view_operand_at_pos_ge1:apply_differs",
-                              "apply(get_function_composition(v), get_function_operands(v)) died (%s) for %s" % (kind, describe(spec)), det)
+            elif ec in ("view_operand_at_pos_ge1", "composite_view"):
+                ctx.violation("extract:%s:apply_differs" % ec,
+                              "apply(get_function_composition(v), get_function_operands(v)) died (%s) for v = %s" % (kind, describe(spec)), det)
             else:
                 ctx.violation("extract:left_deep:crash:%s" % kind, "extraction of %s died: %s" % (describe(spec), kind), det)
         else:
@@ -327,7 +332,7 @@ def _shapes_ok(spec, case, sv, tree):
     return ok, out
 
 
-def check_c_main(ctx, spec, case, toks, det, skipped, classes_seen):
+def check_c_main(ctx, spec, case, toks, det, skipped, classes_seen, finfo):
     rec = E.parse_c(toks)
     tree = G.number_instances(spec["tree"])
     ok, sv_shapes = _shapes_ok(spec, case, rec["sv"], tree)
@@ -337,18 +342,26 @@ def check_c_main(ctx, spec, case, toks, det, skipped, classes_seen):
     if not ok:
         skipped["shape_model"] += 1
     gc = E.graph_class(tree, spec["leaves"])
-    ec = E.extract_class(tree)
-    classes_seen.add("graph:" + gc)
+    ec = E.extract_class(tree, finfo)
     na = nb = 0
     # extracted operands = leaves in DFS order
     exp_ops = [E.expected_leaf(i, case, spec) for i in G.tree_leaves(tree)]
-    if rec["ops"] is not None:
+    if rec["ops"] is not None and ec == "composite_view":
+        # the library's internal tree is not known to the generator: every extracted operand must be one of the leaves, every leaf must occur
+        na = 1
+        got = rec["ops"]
+        bad = [g for g in got if not any(E.operand_matches(e, g) for e in exp_ops)]
+        missing = [e for e in exp_ops if not any(E.operand_matches(e, g) for g in got)]
+        if bad or missing:
+            ctx.violation("extract:operands:composite_view:operand_identity", "get_function_operands(%s) = %s, leaves are %s" % (describe(spec), got, exp_ops), det)
+    elif rec["ops"] is not None:
         na = 1
         d = E.pack_diff(exp_ops, rec["ops"])
         if d:
             ctx.violation("extract:operands:%s:%s" % (ec, d), "get_function_operands(%s) = %s expected the leaves %s" % (describe(spec), rec["ops"], exp_ops), det)
     if rec["graph"] is not None:
         nb = 1
+        classes_seen.add("graph:" + gc)
         r = E.graph_diff(tree, case, spec, rec["graph"], sv_shapes if ok else {})
         if r:
             sym, why = r
@@ -369,23 +382,23 @@ def check_c_main(ctx, spec, case, toks, det, skipped, classes_seen):
     return na, nb
 
 
-def check_c_apply(ctx, spec, case, toks, det, skipped, classes_seen):
+def check_c_apply(ctx, spec, case, toks, det, skipped, classes_seen, finfo):
     rec = E.parse_cx(toks)
     if rec["novalue"] or rec["view"] is None:
         skipped["ref_nothing"] += 1
         return 0
     tree = G.number_instances(spec["tree"])
-    ec = E.extract_class(tree)
+    ec = E.extract_class(tree, finfo)
     classes_seen.add("extract:" + ec)
     nleaves = len(G.tree_leaves(tree))
-    if rec["arity"] != nleaves or rec["nops"] != nleaves:
+    if ec != "composite_view" and (rec["arity"] != nleaves or rec["nops"] != nleaves):
         ctx.violation("extract:%s:arity" % ec, "get_function_composition(%s) has arity %d with %d extracted operands, the expression has %d operand occurrences" % (
             describe(spec), rec["arity"], rec["nops"], nleaves), det)
     d = E.array_diff(rec["view"], rec["apply"])
     if d:
         what = "apply(get_function_composition(v), get_function_operands(v)) = %s but v = %s for v = %s" % (_short(rec["apply"]), _short(rec["view"]), describe(spec))
-        if ec == "view_operand_at_pos_ge1":
-            ctx.violation("extract:view_operand_at_pos_ge1:apply_differs", what + " [%s]" % d, det)
+        if ec in ("view_operand_at_pos_ge1", "composite_view"):
+            ctx.violation("extract:%s:apply_differs" % ec, what + " [%s]" % d, det)
         else:
             ctx.violation("extract:left_deep:%s" % d, what, det)
     if E.informative(rec["view"]):
